@@ -290,7 +290,16 @@ def ansi_escape(text: object) -> str:
     """
     Replace characters with a special meaning.
     """
-    return str(text).replace("\x1b", "?").replace("\b", "?")
+    # ESC and the 8-bit CSI introduce control sequences, \001/\002 delimit
+    # zero-width (raw output) regions: none of them may come out of a value.
+    return (
+        str(text)
+        .replace("\x1b", "?")
+        .replace("\b", "?")
+        .replace("\x9b", "?")
+        .replace("\001", "?")
+        .replace("\002", "?")
+    )
 
 
 class ANSIFormatter(Formatter):
